@@ -376,20 +376,96 @@ pub fn tls_cell(st: &State, t: &mut Toks) -> PResult<String> {
     out
 }
 
+/// NETSLOWHS: a TLS listener; a peer connects and never speaks; seven seconds later a client connects, and starts its handshake
+/// another five seconds later (a slow start, a client behind a proxy): it is served like any other
+pub fn slow_handshake(st: &State, _t: &mut Toks) -> PResult<String> {
+    let dict = st.dicts.get("b").ok_or_else(|| "dict b missing".to_string())?.clone();
+    let rt = rt();
+    let out = rt.block_on(async move {
+        let seen = Arc::new(Mutex::new(Vec::new()));
+        let addr = start_server(Some("match"), Arc::clone(&dict), Arc::clone(&seen)).await?;
+        let silent = TcpStream::connect(addr).await.map_err(|e| e.to_string())?;
+        tokio::time::sleep(Duration::from_millis(7000)).await;
+        let s = TcpStream::connect(addr).await.map_err(|e| e.to_string())?;
+        tokio::time::sleep(Duration::from_millis(5000)).await;
+        let c = native_tls::TlsConnector::builder().danger_accept_invalid_certs(true).build().map_err(|e| e.to_string())?;
+        let c = tokio_native_tls::TlsConnector::from(c);
+        let r = match tokio::time::timeout(Duration::from_secs(4), c.connect("localhost", s)).await {
+            Ok(Ok(ts)) => {
+                let mut conn = Conn::Tls(ts);
+                let _ = conn.write_all(&request(&dict, "slowhs", 5)).await;
+                let want = expected_answer(&dict, "slowhs", 5);
+                let mut got = vec![0u8; want.len()];
+                match tokio::time::timeout(Duration::from_secs(3), conn.read_exact(&mut got)).await {
+                    Ok(Ok(_)) if got == want => "ok",
+                    Ok(Ok(_)) => "wronganswer",
+                    Ok(Err(_)) => "closed",
+                    Err(_) => "noanswer",
+                }
+            }
+            Ok(Err(_)) => "handshake-failed",
+            Err(_) => "handshake-timeout",
+        };
+        drop(silent);
+        Ok::<String, String>(format!("NETSLOWHS {}", r))
+    });
+    rt.shutdown_timeout(Duration::from_millis(200));
+    out
+}
+
+/// TLSTWO <verify>: two TLS clients in one process: the first connects to a peer that accepts the TCP connection and never answers its
+/// ClientHello; the second, meanwhile, connects to a trusted, matching server - and gets its session
+pub fn tls_two(st: &State, t: &mut Toks) -> PResult<String> {
+    let dict = st.dicts.get("b").ok_or_else(|| "dict b missing".to_string())?.clone();
+    let verify = t.boolean()?;
+    let rt = rt();
+    let out = rt.block_on(async move {
+        let seen = Arc::new(Mutex::new(Vec::new()));
+        let addr = start_server(Some("match"), Arc::clone(&dict), Arc::clone(&seen)).await?;
+        let mute = TcpListener::bind(("127.0.0.1", 0)).await.map_err(|e| e.to_string())?;
+        let mport = mute.local_addr().map_err(|e| e.to_string())?.port();
+        tokio::spawn(async move {
+            let mut keep = Vec::new();
+            while let Ok((s, _)) = mute.accept().await { keep.push(s); }
+        });
+        let mut stuck = DiameterClient::new(&format!("localhost:{}", mport), DiameterClientConfig { use_tls: true, verify_cert: verify });
+        let stuck_task = tokio::spawn(async move { let _ = tokio::time::timeout(Duration::from_secs(8), stuck.connect()).await; });
+        tokio::time::sleep(Duration::from_millis(300)).await;
+        let mut client = DiameterClient::new(&format!("localhost:{}", addr.port()), DiameterClientConfig { use_tls: true, verify_cert: verify });
+        let r = match tokio::time::timeout(Duration::from_millis(3000), client.connect()).await {
+            Ok(Ok(_h)) => "ok",
+            Ok(Err(_)) => "refused",
+            Err(_) => "timeout",
+        };
+        stuck_task.abort();
+        Ok::<String, String>(format!("TLSTWO connect={}", r))
+    });
+    rt.shutdown_timeout(Duration::from_millis(200));
+    out
+}
+
 /// TLSSNI <verify>: a TLS endpoint that picks its certificate by the name the client asks for (SNI) - `openssl s_server` with a
 /// default certificate for another name and the trusted, matching one for "localhost" - as name-based virtual hosts and load
 /// balancers do.  A client told to connect to "localhost" gets the session its settings allow.  Observed: the result of connect().
 pub fn tls_sni(_st: &State, t: &mut Toks) -> PResult<String> {
     let verify = t.boolean()?;
+    // optional mode: `tls13` = the endpoint speaks TLS 1.3 only; `alpn` = it has ALPN configured (h2, http/1.1: a shared-port front end)
+    let mode = t.next().unwrap_or("sni").to_string();
     let dir = tls_dir();
     let port = {
         let l = std::net::TcpListener::bind("127.0.0.1:0").map_err(|e| e.to_string())?;
         l.local_addr().map_err(|e| e.to_string())?.port()
     };
+    let mut args: Vec<String> = vec!["s_server".into(), "-accept".into(), format!("127.0.0.1:{}", port), "-quiet".into()];
+    if mode == "sni" {
+        args.extend(["-cert".into(), format!("{}/wrongname.crt", dir), "-key".into(), format!("{}/wrongname.key", dir),
+                     "-servername".into(), "localhost".into(), "-cert2".into(), format!("{}/match.crt", dir), "-key2".into(), format!("{}/match.key", dir)]);
+    } else {
+        args.extend(["-cert".into(), format!("{}/match.crt", dir), "-key".into(), format!("{}/match.key", dir)]);
+        if mode == "tls13" { args.push("-tls1_3".into()); } else { args.extend(["-alpn".into(), "h2,http/1.1".into()]); }
+    }
     let child = std::process::Command::new("openssl")
-        .args(["s_server", "-accept", &format!("127.0.0.1:{}", port), "-quiet",
-               "-cert", &format!("{}/wrongname.crt", dir), "-key", &format!("{}/wrongname.key", dir),
-               "-servername", "localhost", "-cert2", &format!("{}/match.crt", dir), "-key2", &format!("{}/match.key", dir)])
+        .args(&args)
         .stdin(std::process::Stdio::piped()).stdout(std::process::Stdio::null()).stderr(std::process::Stdio::null())
         .spawn();
     let mut child = match child { Ok(c) => c, Err(e) => return Ok(format!("TLSSNI skipped {}", e.to_string().replace(' ', "_"))) };
@@ -756,6 +832,23 @@ async fn faulty_peer(addr: std::net::SocketAddr, tls: bool, dict: Arc<Dictionary
                 tokio::time::sleep(hold).await;
             }
         }
+        // the first octets of a TLS ClientHello record, then the peer hangs up (a port scanner, a client that crashed): the stream ends
+        // inside the handshake
+        "partial-hello" => { if let Ok(mut s) = raw().await { let _ = s.write_all(&[0x16, 0x03, 0x01, 0x02, 0x00]).await; tokio::time::sleep(Duration::from_millis(40)).await; drop(s); } }
+        // pipelines four megabytes of requests and never reads an answer: sooner or later the server's write to this peer blocks
+        "flood-no-read" => {
+            if let Ok(mut c) = Conn::open(addr, tls).await {
+                let one = request(&dict, "flood", 9);
+                let mut block = Vec::new();
+                for _ in 0..500 { block.extend_from_slice(&one); }
+                // (until a write of ours does not get through for a second: the server has stopped reading because its own write to us
+                // is stuck - or 64 MB, whichever comes first)
+                for _ in 0..(64_000_000 / block.len() + 1) {
+                    if tokio::time::timeout(Duration::from_secs(1), c.write_all(&block)).await.is_err() { break; }
+                }
+                tokio::time::sleep(hold).await;
+            }
+        }
         // abrupt reset right after connecting
         "reset" => { if let Ok(s) = raw().await { let _ = s.set_linger(Some(Duration::from_secs(0))); drop(s); } }
         k => {
@@ -764,6 +857,8 @@ async fn faulty_peer(addr: std::net::SocketAddr, tls: bool, dict: Arc<Dictionary
                 "malformed" => { let _ = c.write_all(&[1, 0, 0, 24, 0xff, 0xff, 0xff, 0xff, 0, 0, 0, 0, 0, 0, 0, 0, 0, 0, 0, 0, 9, 9, 9, 9]).await; }
                 "oversized" => { let _ = c.write_all(&[1, 0xff, 0xff, 0xff, 0x80, 0, 1, 16]).await; }
                 "zero-length" => { let _ = c.write_all(&[1, 0, 0, 0]).await; }
+                // a frame whose only AVP says its own length is 0
+                "avp-length-zero" => { let _ = c.write_all(&[1, 0, 0, 28, 0x80, 0, 1, 16, 0, 0, 0, 4, 0, 0, 0, 1, 0, 0, 0, 1, 0, 0, 1, 7, 0x40, 0, 0, 0]).await; }
                 "stall-midframe" => { let r = request(&dict, "stall", 1); let _ = c.write_all(&r[..r.len() / 2]).await; }
                 "deep-nesting" => {
                     // one legal-size frame (just under 1 MiB) of Grouped AVPs nested as deep as it can hold (about 131 000 levels)
@@ -880,7 +975,8 @@ pub fn scenario(st: &State, t: &mut Toks) -> PResult<String> {
         tokio::time::sleep(Duration::from_millis(seed % 20)).await;
         let hold = Duration::from_secs(30);
         let mut fh = Vec::new();
-        let slow_fault = faults.iter().any(|f| f == "vanish-before-answer" || f == "announce-leave" || f == "reset-same-port" || f == "unread-then-malformed");
+        let flood = faults.iter().any(|f| f == "flood-no-read");
+        let slow_fault = faults.iter().any(|f| f == "vanish-before-answer" || f == "announce-leave" || f == "reset-same-port" || f == "unread-then-malformed" || f == "flood-no-read");
         for f in faults {
             fh.push(tokio::spawn(faulty_peer(addr, tls, Arc::clone(&dict), f, hold)));
             tokio::time::sleep(Duration::from_millis((seed >> 8) % 10)).await;
@@ -889,6 +985,10 @@ pub fn scenario(st: &State, t: &mut Toks) -> PResult<String> {
         if slow_fault {
             // the clients opened afterwards must still be talking when the failed write has happened
             tokio::time::sleep(Duration::from_millis(450)).await;
+        }
+        if flood {
+            // ... and must open only once the flooding peer has brought the server's write to it to a halt
+            tokio::time::sleep(Duration::from_millis(6000)).await;
         }
         for i in early..ngood {
             handles.push(tokio::spawn(good_client(addr, tls, Arc::clone(&dict), i, nreq, seed)));
